@@ -1448,6 +1448,11 @@ callf:
 				return lerr
 			}
 			fun, args = extractMarkTailRec(r)
+			// The reused frame starts the callee's body afresh: only its last
+			// form is in tail position.  Leaving Terminal set from the previous
+			// turn made a call in a NON-final body form of a later turn look
+			// like a tail call, and call() discarded the resulting mark.
+			top.Terminal = false
 			if r.source != nil {
 				// the resumed call is the tail-call expression, not the call
 				// that first pushed this frame
@@ -1598,6 +1603,11 @@ callf:
 				return lerr
 			}
 			fun, args = extractMarkTailRec(r)
+			// The reused frame starts the callee's body afresh: only its last
+			// form is in tail position.  Leaving Terminal set from the previous
+			// turn made a call in a NON-final body form of a later turn look
+			// like a tail call, and call() discarded the resulting mark.
+			top.Terminal = false
 			if r.source != nil {
 				// the resumed call is the tail-call expression, not the call
 				// that first pushed this frame
